@@ -62,3 +62,28 @@ Example tx_example :
   | None => []
   end = [Some 10; Some 11; None; Some 9; Some 65535; Some 65539; None].
 Proof. vm_compute. reflexivity. Qed.
+
+(* ---- AES-GCM (RFC 7714) IV formations (Aead.v), OpenSSL configuration; statements printed by Coq's Check ---- *)
+From Srtp Require Import Util Constants KeyLimit Rdb Rdbx Icm World Stream Rtp Rtcp Aead AeadIvProofs.
+(* AES-GCM: the SRTP IV formation is injective in (SSRC, packet index) for any salt   [AeadIvProofs.v] *)
+Theorem C08_aead_rtp_iv_injective :
+  forall (salt : bytes) (ssrc est ssrc' est' : Z),
+       0 <= ssrc < 2 ^ 32 ->
+       0 <= ssrc' < 2 ^ 32 ->
+       0 <= est < 2 ^ 48 ->
+       0 <= est' < 2 ^ 48 ->
+       aead_rtp_iv salt ssrc est = aead_rtp_iv salt ssrc' est' -> ssrc = ssrc' /\ est = est'.
+Proof. exact aead_rtp_iv_injective. Qed.
+Print Assumptions C08_aead_rtp_iv_injective.
+
+(* AES-GCM: the SRTCP IV formation is injective in (SSRC, index)   [AeadIvProofs.v] *)
+Theorem C08_aead_rtcp_iv_injective :
+  forall (csalt : bytes) (ssrc seq ssrc' seq' : Z),
+       0 <= ssrc < 2 ^ 32 ->
+       0 <= ssrc' < 2 ^ 32 ->
+       0 <= seq < 2 ^ 31 ->
+       0 <= seq' < 2 ^ 31 ->
+       aead_rtcp_iv csalt ssrc seq = aead_rtcp_iv csalt ssrc' seq' -> ssrc = ssrc' /\ seq = seq'.
+Proof. exact aead_rtcp_iv_injective. Qed.
+Print Assumptions C08_aead_rtcp_iv_injective.
+
